@@ -203,8 +203,12 @@ def call(fn, *args, **kwargs):
         if isinstance(e, (KeyboardInterrupt, SystemExit, MemoryError)):
             raise
         mro = [c.__module__ + '.' + c.__name__ for c in type(e).__mro__]
+        try:
+            msg = str(e)[:120]
+        except Exception:
+            msg = '<unprintable %s>' % type(e).__name__
         return {'k': 'exc', 't': '', 'v': [], 'b': False, 'j': '', 'cls': type(e).__name__,
-                'mro': mro, 'site': site_of(e), 'msg': str(e)[:120]}
+                'mro': mro, 'site': site_of(e), 'msg': msg}
     r = {'k': 'ret', 't': type(val).__name__, 'v': [], 'b': False, 'j': '', 'cls': '', 'mro': [],
          'site': '', 'msg': ''}
     if type(val) is str:
